@@ -103,8 +103,15 @@ class Handler:
             t = n.test.ast
             if isinstance(t, ast.expr):
                 for atom, truth in cond_facts(t, n.label == "T"):
+                    isnone = None
+                    if atom.endswith(" is None"):
+                        atom, isnone = atom[: -len(" is None")], truth
+                    elif atom.endswith(" is not None"):
+                        atom, isnone = atom[: -len(" is not None")], not truth
                     a = self.norm_atom(atom)
-                    if self.tracked(a):
+                    if self.tracked(a) and isnone is not None:
+                        evs.append(("isnone", a, isnone))
+                    elif self.tracked(a):
                         evs.append(("cond", a, truth))
                     else:
                         c = self.lc.classify_test(self, atom, truth)
@@ -124,6 +131,9 @@ class Handler:
                 ev = self.lc.classify_call(self, c)
                 if ev:
                     evs.append(ev)
+                eff = self.lc.effect_of_call(self, c)
+                if eff:
+                    evs.append(eff)
         # assignments to tracked attributes
         if isinstance(a, (ast.Assign, ast.AnnAssign, ast.AugAssign)):
             from .core import assigned_targets
@@ -138,6 +148,8 @@ class Handler:
                     v = getattr(a, "value", None)
                     if isinstance(a, ast.Assign) and len(a.targets) == 1 and a.targets[0] is t and isinstance(v, ast.Constant):
                         val = v.value
+                    elif isinstance(a, ast.Assign) and any(x is t for x in a.targets) and isinstance(v, ast.Call) and self.lc.returns_non_none(self, v):
+                        val = "!"  # unknown but not None
                     evs.append(("set", na, val))
         return evs
 
@@ -281,6 +293,89 @@ class Lifecycle:
             return ("call", d)
         return None
 
+    # -- non-idempotent effects -------------------------------------------------
+    def _nonidempotent_summary(self) -> dict[str, list[str]]:
+        """Scheduler method -> list of non-idempotent in-memory effects (transitive over self.<m>() calls).
+
+        A direct effect is an augmented assignment, or a growing call (append/extend/add/insert), on state reached from
+        a parameter or self (including inside nested closures, which run as part of the call)."""
+        if getattr(self, "_ni", None) is not None:
+            return self._ni
+        cls = self.mod.cls("Scheduler")
+        methods = {st.name: st for st in cls.body if isinstance(st, FuncNode)}
+        direct: dict[str, list[str]] = {}
+        for name, fn in methods.items():
+            params = {a.arg for f in ast.walk(fn) if isinstance(f, FuncNode) for a in f.args.args}
+            effs = []
+            for n in ast.walk(fn):
+                if isinstance(n, ast.AugAssign):
+                    t = n.target
+                    base = t
+                    while isinstance(base, (ast.Attribute, ast.Subscript)):
+                        base = base.value
+                    if isinstance(t, (ast.Attribute, ast.Subscript)) and isinstance(base, ast.Name) and base.id in params:
+                        effs.append(src(n))
+                elif isinstance(n, ast.Call) and isinstance(n.func, ast.Attribute) and n.func.attr in ("append", "extend", "add", "insert"):
+                    base = n.func.value
+                    root = base
+                    while isinstance(root, (ast.Attribute, ast.Subscript)):
+                        root = root.value
+                    if isinstance(base, (ast.Attribute, ast.Subscript)) and isinstance(root, ast.Name) and root.id in params:
+                        effs.append(src(n))
+            direct[name] = effs
+        summ = {k: list(v) for k, v in direct.items()}
+        changed = True
+        while changed:
+            changed = False
+            for name, fn in methods.items():
+                for c in calls_in(fn):
+                    d = call_name(c) or ""
+                    if d.startswith("self.") and d.count(".") == 1:
+                        callee = d[5:]
+                        for e in summ.get(callee, []):
+                            tag = f"{callee}: {e}" if ": " not in e else e
+                            if tag not in summ[name] and e not in summ[name]:
+                                summ[name].append(tag)
+                                changed = True
+        self._ni = summ
+        return summ
+
+    WAITQ_METHODS = ("_add_job_pending_limits",)
+
+    def effect_of_call(self, h: "Handler", c: ast.Call):
+        d = call_name(c) or ""
+        sv = h.schedvar
+        if d.startswith(sv + ".") and d.count(".") == 1:
+            meth = d[len(sv) + 1 :]
+            if meth in self.WAITQ_METHODS or meth in ("_consume_resources", "_release_resources", "_finalize_job"):
+                return None
+            if meth in self.wrappers or "Scheduler." + meth in self.handlers:
+                return None
+            effs = self._nonidempotent_summary().get(meth)
+            if effs:
+                return ("effect", f"{meth}() -> {effs[0]}")
+        return None
+
+    def returns_non_none(self, h: "Handler", c: ast.Call) -> bool:
+        d = call_name(c) or ""
+        fn = None
+        if d.startswith(h.schedvar + ".") and d.count(".") == 1:
+            fn = self.mod.funcs.get("Scheduler." + d.split(".")[1])
+        elif d.isidentifier():
+            for n in ast.walk(h.fn):
+                if isinstance(n, FuncNode) and n.name == d:
+                    fn = n
+        if fn is None:
+            return False
+        rets = [r for r in ast.walk(fn) if isinstance(r, ast.Return)]
+        if not rets:
+            return False
+        for r in rets:
+            v = r.value
+            if v is None or (isinstance(v, ast.Constant) and v.value is None) or isinstance(v, ast.Name):
+                return False
+        return True
+
     def _short(self, q: str) -> str:
         return {self.EXEC: "exec", self.DONE: "done", self.RESOLVE: "resolve", self.REJECT: "reject"}[q]
 
@@ -299,7 +394,7 @@ class Lifecycle:
     def explore(self, max_traces: int = 400000):
         """Yield complete traces: list of (handler_key, PathSummary, state_after) ending in a
         terminal (finalize / stop)."""
-        init_state = {k: v for k, v in self.job_init.items() if isinstance(v, bool)}
+        init_state = {k: v for k, v in self.job_init.items() if isinstance(v, bool) or v is None}
         init_state["held"] = 0
         init_state["job"] = True  # a hand-off always carries the job itself
         results = []
@@ -320,11 +415,24 @@ class Lifecycle:
                         cur = st.get(atom, "?")
                         if cur == "?":
                             st[atom] = truth
+                        elif cur == "!":
+                            if not truth:
+                                st[atom] = False
                         elif bool(cur) != truth:
                             if k == "assert":
                                 notes.append(("assert-fails", atom, truth))
                             feasible = False
                             break
+                    elif k == "isnone":
+                        _, atom, truth = e
+                        cur = st.get(atom, "?")
+                        if cur == "?":
+                            st[atom] = None if truth else "!"
+                        elif (cur is None) != truth:
+                            feasible = False
+                            break
+                    elif k == "effect":
+                        notes.append(("effect", e[1]))
                     elif k == "set":
                         st[e[1]] = e[2]
                     elif k == "consume":
